@@ -7,6 +7,8 @@ def _c10_case(c):
     # K <j> <enc> <k> <hexjson> | S <enc> <hexjson> | R <enc> <hexjson>
     if p[0] == "K":
         return {"script": _json.loads(unhex(p[4])), "k": int(p[3])}
+    if p[0] == "C":
+        return {"script": _json.loads(unhex(p[1])), "conc_delay_us": 2000}
     if p[0] in ("S", "R"):
         return {"script": _json.loads(unhex(p[2]))}
     return {"raw": c}
@@ -154,8 +156,8 @@ def _c10_vm_sample(d, tier, coq, build, want=150):
 
 CONFIG = {
     "properties_file": "Properties/C10.v",
-    "proof_files": ["Base/Prelude.v", "Proofs/OciCrash.v", "Proofs/OciGC.v", "Proofs/OciCrashGC.v"],
-    "model_files": ["Generated/GC10.v", "Model/OciCrash.v", "Model/OciCrashSpec.v"],
+    "proof_files": ["Base/Prelude.v", "Proofs/OciCrash.v", "Proofs/OciGC.v", "Proofs/OciCrashGC.v", "Proofs/OciCrashConc.v"],
+    "model_files": ["Generated/GC10.v", "Model/OciCrash.v", "Model/OciCrashSpec.v", "Model/OciCrashConc.v"],
     "also_translate": ["C09"],
     "extract": "XC10.v",
     "ml_main": "c10_main.ml",
